@@ -351,7 +351,8 @@ def main_check(check, argv=None):
             continue
         pre = None
         for k in known:
-            if k.get('class') == cls and k.get('status', 'open') == 'open':
+            if (k.get('class') == cls or ('class_prefix' in k and cls.startswith(k['class_prefix']))) and \
+                    k.get('status', 'open') == 'open':
                 fn = matchers.get(k.get('matcher'))
                 if fn and k.get('match_unshrunk', True) and fn(plan, cls, msg):
                     pre = k
@@ -369,7 +370,8 @@ def main_check(check, argv=None):
         smsg = smsg[0] if smsg else msg
         hit = None
         for k in known:
-            if k.get('class') == cls and k.get('status', 'open') == 'open':
+            if (k.get('class') == cls or ('class_prefix' in k and cls.startswith(k['class_prefix']))) and \
+                    k.get('status', 'open') == 'open':
                 fn = matchers.get(k.get('matcher'))
                 if fn and fn(small, cls, smsg):
                     hit = k
